@@ -1,5 +1,6 @@
 mod config;
 mod dec;
+mod fifo;
 mod gen;
 mod mcp;
 mod pack;
@@ -48,6 +49,15 @@ fn main() {
             mcp::random(&mut run, args.num("seed", 1), args.num("n", 100));
             run.finish();
         }
+        "fifo" => {
+            let mut run = Runner::new(&args);
+            if let Some(p) = args.get("in") {
+                fifo::replay(&mut run, p);
+            }
+            fifo::random(&mut run, args.num("seed", 1), args.num("n", 100));
+            run.finish();
+        }
+        "cbsweep" => fifo::sweep(args.req("out"), args.get("tier") == Some("thorough")),
         "config" => {
             let v = config::config();
             std::fs::write(args.req("out"), serde_json::to_string(&v).unwrap()).unwrap();
